@@ -33,7 +33,7 @@ ASSUMPTIONS = [
 S0 = world.tosec("2020-01-01T00:00:00")
 DS = [0.0, 1e-4, 1e-2, 1.0, 100.0]
 DTS = [1, 60, 600, 3600]
-DXS = [(1.0, 1.0), (100.0, 100.0), (800.0, 500.0), (20000.0, 20000.0)]
+DXS = [(1.0, 1.0), (100.0, 100.0), (800.0, 500.0), (20000.0, 20000.0), (400.0, "cellwise")]
 
 _mods = {}
 
@@ -85,11 +85,18 @@ def run_one(D, Dz, dt, dxy, nsteps, npart, adv):
     from ladim.tracker import Tracker
 
     dx, dy = DXS[dxy]
+    cellwise = dy == "cellwise"
+    if cellwise:
+        dy = dx
+        if not adv:
+            return None  # the cell-wise metric matters only when the particles travel
     mods = {}
     mods["time"] = TimeKeeper(start=world.iso(S0), stop=world.iso(S0 + 1000 * dt), dt=dt)
     mods["state"] = st = State()
-    mods["grid"] = plugin("agrid").Grid(modules=mods, imax=40, jmax=30, dx=dx, dy=dy, h=5000.0)
-    mods["forcing"] = fo = plugin("aforce").Forcing(mods, field="still", record=False)
+    mods["grid"] = g = plugin("agrid").Grid(modules=mods, imax=40, jmax=30, dx=dx, dy=dy, h=5000.0, metric="cellwise" if cellwise else "uniform")
+    # cell-wise metric: a steady current carries the particles into cells with another spacing (0.45 cells of the base spacing per step)
+    ua, va = (0.45 * dx / dt, 0.3 * dx / dt) if cellwise else (0.0, 0.0)
+    mods["forcing"] = fo = plugin("aforce").Forcing(mods, field="const" if cellwise else "still", params=dict(a=ua, b=va, L=1.0), record=False)
     tr = Tracker(advection=adv, diffusion=D, vertdiff=Dz, modules=mods)
     mods["tracker"] = tr
     if not isinstance(tr.rng, np.random.Generator):
@@ -121,21 +128,27 @@ def run_one(D, Dz, dt, dxy, nsteps, npart, adv):
         if not st.alive.all():
             return ("displacement:left-grid", f"step {s}: a particle left the 40x30 grid although the scripted draws allow at most 0.02 cells per step")
         ddx, ddy, ddz = st.X - xb, st.Y - yb, st.Z - zb
-        if D == 0 and (np.any(ddx != 0) or np.any(ddy != 0)):
+        mdx, mdy = np.full(npart, float(dx)), np.full(npart, float(dy))
+        if cellwise:  # the spacing of the cell occupied when the step began; the advective part is removed
+            I, J = xb.round().astype(int), yb.round().astype(int)
+            mdx, mdy = g.DX[J, I], g.DY[J, I]
+            ddx, ddy = ddx - ua * dt / mdx, ddy - va * dt / mdy
+        if D == 0 and not cellwise and (np.any(ddx != 0) or np.any(ddy != 0)):
             return ("not-deterministic", f"step {s}: horizontal displacement {ddx},{ddy} with D=0")
         if Dz == 0 and np.any(ddz != 0):
             return ("not-deterministic", f"step {s}: vertical displacement {ddz} with Dz=0")
         used = {}
-        for name, disp, sig, metric, pos in (("x", ddx, sig_h, dx, xb), ("y", ddy, sig_h, dy, yb), ("z", ddz, sig_z, 1.0, zb)):
+        for name, disp, sig, metric_, pos in (("x", ddx, sig_h, mdx, xb), ("y", ddy, sig_h, mdy, yb), ("z", ddz, sig_z, np.ones(npart), zb)):
             if sig == 0:
                 continue
             for i in range(npart):
+                metric = float(metric_[i])
                 if len(pool) == 0:
                     return ("no-draw", f"step {s}: coefficient > 0 but nothing was drawn")
                 exp = sig * pool / metric
                 err = np.abs(disp[i] - exp)
                 j = int(np.argmin(err))
-                if err[j] > 1e-9 * abs(exp[j]) + 16 * np.finfo(float).eps * abs(pos[i]):
+                if err[j] > 1e-9 * abs(exp[j]) + (64 if cellwise else 16) * np.finfo(float).eps * abs(pos[i]):
                     return (f"displacement:{name}", f"step {s} particle {i}: {name}-displacement {disp[i]} is not sqrt(2*{'Dz' if name == 'z' else 'D'}*dt)/d{name} "
                                                     f"times any value drawn in this step (sigma={sig}, metric={metric}; nearest candidate gives {exp[j]}, ratio {disp[i] / exp[j]})")
                 if j in used:
